@@ -45,7 +45,8 @@ def gen_case(rng):
             act.append([rng.randint(0, 2 * T) / 2.0, rng.choice(['slew', 'track', 'scan'])])
         act = sorted({a[0]: a for a in act}.values())
         targets = [[-1.0, tgt[0]]] + ([[rng.randint(1, 2 * T) / 2.0, tgt[1]]] if len(tgt) > 1 else [])
-        parts.append(dict(T=T, activity=act, targets=targets, extra=rng.random() < 0.6, seed=rng.randrange(2 ** 31)))
+        parts.append(dict(T=T, activity=act, targets=targets, extra=rng.random() < 0.6, seed=rng.randrange(2 ** 31),
+                          extra_bool=rng.random() < 0.5, extra_int=rng.random() < 0.5))
     # parts of different subarrays (correlation-product labelling) and spectral windows (centre frequency);
     # the two patterns are drawn independently so that they differ from each other in most cases
     multi = rng.random() < 0.3
@@ -86,6 +87,10 @@ def build_parts(case, tmp):
             from harness import v4synth
             if spec['extra']:
                 extra['anc_air_temperature'] = [(-1.0, 20.0 + p), (spec['T'] + 1.0, 22.0 + p)]
+            if spec.get('extra_bool'):
+                extra['anc_gust_alarm'] = [(-1.0, True)]            # boolean sensor, absent elsewhere -> False
+            if spec.get('extra_int'):
+                extra['anc_rain_count'] = [(-1.0, 7 + p)]            # integer sensor, absent elsewhere -> -1
             syn = v4synth.make_v4(rng, T=spec['T'], F=case['F'], n_ants=case['n_ants'], shuffle_bls=False,
                                   sync_time=start - 128.0, first_timestamp=128.0, int_time=int_time,
                                   activity=activity, targets=targets, extra_sensors=extra,
@@ -228,6 +233,25 @@ def drive(ctx, case, parts, d):
             elif not np.isnan(seg).all():
                 return f'sensor {name} absent from part {k} is not filled with the dummy value (NaN): {seg.tolist()}', spanned
         ctx.tag('partial-sensor')
+    # sensors of other types present in only some parts: the dummy value of their type (False, -1) elsewhere
+    if case['fmt'] == 'v4':
+        for key, sname, dummy, kind in (('extra_bool', 'anc_gust_alarm', False, bool), ('extra_int', 'anc_rain_count', -1, int)):
+            if not any(p.spec.get(key) for p in chrono) or all(p.spec.get(key) for p in chrono):
+                continue
+            try:
+                vals = list(d.sensor[sname])
+            except Exception as e:   # noqa: BLE001
+                return f'sensor {sname} present in some parts raised {type(e).__name__}: {str(e)[:80]}', spanned
+            if len(vals) != T:
+                return f'sensor {sname} has {len(vals)} values on {T} dumps', spanned
+            for k, p in enumerate(chrono):
+                seg = vals[offs[k]:offs[k + 1]]
+                if not p.spec.get(key) and any(kind(x) != dummy for x in seg):
+                    return (f'{kind.__name__} sensor {sname} absent from part {k} reads {[kind(x) for x in seg][:4]} '
+                            f'there instead of the dummy value {dummy!r} of its type'), spanned
+                if p.spec.get(key) and any(kind(x) == dummy for x in seg):
+                    return f'{kind.__name__} sensor {sname} reads the dummy value in part {k} where it has samples', spanned
+            ctx.tag('partial-sensor-' + kind.__name__)
     # --- selections and boundary-spanning reads
     for op in case['ops']:
         rng = random.Random(op['seed'])
